@@ -35,6 +35,16 @@ def run(ctx):
     for fk0 in ("BlsSignatureCore::core_verify", "BlsSignatureCore::core_aggregate_verify"):
         R.check_result_guard(ctx, "E4.keyvalidate", P, fk0, "is_identity", ("param", "sig"))
     R.check_result_guard(ctx, "E4.keyvalidate", P, "BlsSignatureCore::core_verify", "is_identity", ("param", "pk"))
+    from . import flow as F0_
+    from . import posctl as PC0_
+    from .c09 import _concerns as _concerns0
+
+    F0_.check_aggregate_key_guard(ctx, "E4.keyvalidate", P)
+    # KeyValidate's subgroup half: keys and signatures enter only through the subgroup-checking point decoders - an
+    # unchecked decoder lets pk + T (T of cofactor order) parse as another key under which pk's signatures verify
+    bad0 = [(f, bb, p) for f, bb, p in PC0_.unchecked_calls(P) if _concerns0(P, f, ("PublicKey", "Signature", "deserialize_public_key", "deserialize_signature", "sig_core", "BlsSignature"))]
+    ctx.ob("E7.unchecked", "key and signature decoders", not bad0, "unchecked point decoders on the way of a public key or signature: %s" % [(f.key, p) for f, bb, p in bad0][:4], where=where(bad0[0][0], bad0[0][1]) if bad0 else None)
+    PC0_.run_posctl(ctx, "E7.unchecked", "unchecked")
     # 0b. the verdict depends on the message through its hash only
     from . import flow as F_
 
